@@ -3,10 +3,12 @@
 # usage: tools/run_all.sh [quick|thorough] [seed]
 cd "$(dirname "$0")/.."
 TIER=${1:-quick}; SEED=${2:-1}
+LOGDIR=/tmp/run_all_$$; mkdir -p $LOGDIR
 for i in 01 02 03 04 05 06 07 08 09 10 11 12 13 14 15 16 17 18 19 20; do
   s=$(date +%s.%N)
-  VERIF_SEED=$SEED ./check C$i --tier $TIER > /tmp/run_all_C$i.log 2>&1
+  VERIF_SEED=$SEED ./check C$i --tier $TIER > $LOGDIR/C$i.log 2>&1
   code=$?
   e=$(date +%s.%N)
-  printf "C%s exit=%s wall=%.1fs %s\n" $i $code $(echo "$e - $s" | bc) "$(grep -c '^VIOLATION' /tmp/run_all_C$i.log) violations"
+  printf "C%s exit=%s wall=%.1fs %s\n" $i $code $(echo "$e - $s" | bc) "$(grep -c '^VIOLATION' $LOGDIR/C$i.log) violations"
 done
+echo "logs: $LOGDIR"
